@@ -693,7 +693,9 @@ def make_c09_judge(check_genbank=True):
             ctx.count("c09_fragment_counts_checked")
         cover = [0] * N
         seq = str(p.seq).upper()
-        texts = {rid: str(r.seq).upper() for rid, r in zip(ids, [obs.vec.record] + [x.record for x in obs.mods])}
+        texts = {}      # several supplied plasmids may carry the same id: a stretch is verbatim when it occurs in one of that name
+        for rid, r in zip(ids, [obs.vec.record] + [x.record for x in obs.mods]):
+            texts.setdefault(rid, []).append(str(r.seq).upper())
         for f in own:
             d = denote(f.location, N)
             for pos, _ in d:
@@ -701,8 +703,7 @@ def make_c09_judge(check_genbank=True):
             plasmid = f.qualifiers.get("plasmid")
             plasmid = plasmid[0] if isinstance(plasmid, (list, tuple)) else plasmid
             t = "".join(seq[pos] for pos, _ in d)
-            src = texts.get(plasmid, "")
-            if not t or len(t) > len(src) or t not in src + src[: len(t) - 1]:
+            if not t or not any(len(t) <= len(src) and t in src + src[: len(t) - 1] for src in texts.get(plasmid, [])):
                 ctx.violation("source-feature-not-verbatim", "source feature %s naming %r covers %r..., which does not occur in that plasmid" % (f.location, plasmid, t[:30]), **w)
         if own and any(c != 1 for c in cover):
             holes = sum(1 for c in cover if c == 0)
